@@ -259,3 +259,37 @@ def header_deserialize_trunc(cls: Const(CBlockHeader), buf: Bytes, allow_padding
     raises(SerializationTruncationError, when=True)
 
 
+
+
+# ---- bounded: whole objects through the wire (the component encoders/decoders above are proved; their composition
+# ---- into CTransaction / CBlock deserialisation, constructors included, is checked here on generated objects) ----
+@contract('bitcoin.core.serialize:Serializable.deserialize', name='tx_wire_roundtrip', prop=P)
+def tx_wire_roundtrip(cls: Const(CTransaction), buf: Bytes, *, tx: Obj(CMutableTransaction)):
+    """BOUNDED: the reference encoding of a generated transaction (all field boundaries, scripts and witness items
+    around 252/253/520/521 bytes, up to 253 inputs/outputs) deserialises to an equal transaction that serialises back
+    to the same bytes"""
+    option(bounded=500)
+    requires(valid_tx(tx) and len(tx.vin) >= 1)
+    requires(buf == enc_tx(tx, True))
+    ensures(result.serialize() == buf and result.serialize() == tx.serialize() and result == tx
+            and CTransaction.from_tx(tx).serialize() == buf
+            and result.nLockTime == tx.nLockTime and result.nVersion == tx.nVersion
+            and len(result.vin) == len(tx.vin) and len(result.vout) == len(tx.vout))
+
+
+@contract('bitcoin.core.serialize:Serializable.deserialize', name='block_wire_roundtrip', prop=P)
+def block_wire_roundtrip(cls: Const(CBlock), buf: Bytes, *, blk: Obj(CBlock)):
+    """BOUNDED: the same for generated blocks"""
+    option(bounded=150)
+    requires(valid_block(blk) and all(len(t.vin) >= 1 for t in blk.vtx))
+    requires(buf == enc_block(blk, True))
+    ensures(result.serialize() == buf and result.serialize() == blk.serialize() and result.GetHash() == blk.GetHash()
+            and len(result.vtx) == len(blk.vtx))
+
+
+from pyvc import replay as _replay
+from contracts.common import gen_tx as _gen_tx, gen_block as _gen_block
+_replay.GENERATORS.update({
+    'tx_wire_roundtrip': lambda rng: {'cls': {'__class__': 'bitcoin.core:CTransaction'}, 'buf': None, 'tx': _gen_tx(rng, cls='bitcoin.core:CMutableTransaction', min_in=1)},
+    'block_wire_roundtrip': lambda rng: {'cls': {'__class__': 'bitcoin.core:CBlock'}, 'buf': None, 'blk': _gen_block(rng)},
+})
